@@ -113,6 +113,14 @@ fn run_case(case: &Value) -> (Value, Option<Ctx>) {
     let close0 = case.get("close0").and_then(|v| v.as_bool()).unwrap_or(false);
     let mut saved0: i32 = -1;
     let mut ctx = Ctx { root: None, root_raw: -1, kept: Vec::new(), procfs: None };
+    // the current directory of the worker is the scratch case directory (the root's parent), so
+    // that anything resolved relative to the cwd by mistake shows up in the outside snapshot
+    if !rootpath.is_empty() {
+        let parent = std::path::Path::new(rootpath).parent().map(|p| p.to_path_buf());
+        if let Some(p) = parent {
+            let _ = std::env::set_current_dir(&p);
+        }
+    }
     if !rootpath.is_empty() {
         marker("OPENROOT");
         match Root::open(rootpath) {
